@@ -32,9 +32,9 @@ def install_stubs():
 
     def _format_no_realize(obj, format_spec=""):
         with NoTracing():
-            symint = isinstance(obj, _bl.SymbolicInt) and format_spec == ""
+            symint = isinstance(obj, (_bl.SymbolicInt, _bl.SymbolicFloat, _bl.LazyIntSymbolicStr)) and format_spec == ""
         if symint:
-            return "<int>"
+            return "<sym>"
         return _orig_format(obj, format_spec)
 
     _cc._PATCH_REGISTRATIONS[format] = _format_no_realize
@@ -115,7 +115,12 @@ def _untraced_dispatch(conv):
         from crosshair.core import NoTracing
     except Exception:
         return
-    orig = conv._structure_func.dispatch
+    for holder in (conv._structure_func, conv._unstructure_func):
+        _wrap_dispatch(holder, NoTracing)
+
+
+def _wrap_dispatch(holder, NoTracing):
+    orig = holder.dispatch
     cache = {}
 
     def dispatch(t):
@@ -130,7 +135,13 @@ def _untraced_dispatch(conv):
             cache[t] = h
             return h
 
-    conv._structure_func.dispatch = dispatch
+    def cache_clear():
+        cache.clear()
+        if hasattr(orig, "cache_clear"):
+            orig.cache_clear()
+
+    dispatch.cache_clear = cache_clear
+    holder.dispatch = dispatch
 
 
 def real_converter():
@@ -139,6 +150,7 @@ def real_converter():
         from lsprotocol import converters
 
         _REAL = converters.get_converter()
+        _untraced_dispatch(_REAL)
     return _REAL
 
 
